@@ -70,14 +70,7 @@ func (m *Model) RunBuiltinRules(s *Sink, ruleArg, ruleUTF, ruleSib string) {
 						okv = ex
 					}
 				}
-				good := false
-				if okv != nil {
-					for _, fb := range failureTargets(okv) {
-						if ret, isRet := fb.Instrs[len(fb.Instrs)-1].(*ssa.Return); isRet && len(ret.Results) == 2 && isNilConst(ret.Results[0]) && !isNilConst(ret.Results[1]) {
-							good = true
-						}
-					}
-				}
+				good := okv != nil && m.missIsError(okv, 0)
 				if good {
 					s.OK(ruleArg, key, m.InstrPos(ta), "the miss edge of args[%s].(%s) returns (nil, error)", valueDesc(ia.Index), typeStr(ta.AssertedType))
 				} else {
@@ -346,4 +339,64 @@ func (m *Model) checkBuiltinMessages(s *Sink, rule string, be BuiltinEntry) {
 		}
 	}
 	visit(be.Fn, nil, nil, 0)
+}
+
+// missIsError: the false outcome of the ok value leads to a return that carries a non-nil error — in this function,
+// or, when the function hands ok back to its callers as its verdict, at every call site (recursively).
+func (m *Model) missIsError(okv ssa.Value, depth int) bool {
+	if depth > 3 || okv.Referrers() == nil {
+		return false
+	}
+	errRet := func(b *ssa.BasicBlock) bool {
+		ret, isRet := b.Instrs[len(b.Instrs)-1].(*ssa.Return)
+		if !isRet {
+			return false
+		}
+		res := b.Parent().Signature.Results()
+		for i := range ret.Results {
+			if isErrorLike(res.At(i).Type()) && !isNilConst(retSource(ret, i)) {
+				return true
+			}
+		}
+		return false
+	}
+	for _, fb := range failureTargets(okv) {
+		if errRet(fb) {
+			return true
+		}
+	}
+	// returned as the verdict of the enclosing function
+	fn := okv.(ssa.Instruction).Parent()
+	vi := verdictIndex(fn)
+	returned := false
+	for _, r := range *okv.Referrers() {
+		if ret, isRet := r.(*ssa.Return); isRet && vi >= 0 && vi < len(ret.Results) && ret.Results[vi] == okv {
+			returned = true
+		}
+	}
+	if !returned {
+		return false
+	}
+	node := m.CG.Nodes[fn]
+	if node == nil {
+		return false
+	}
+	n := 0
+	for _, e := range node.In {
+		call, isCall := e.Site.(*ssa.Call)
+		if !isCall || call.Call.StaticCallee() != fn {
+			return false
+		}
+		n++
+		var verdict ssa.Value
+		for _, r := range *call.Referrers() {
+			if ex, isEx := r.(*ssa.Extract); isEx && ex.Index == vi {
+				verdict = ex
+			}
+		}
+		if verdict == nil || !m.missIsError(verdict, depth+1) {
+			return false
+		}
+	}
+	return n > 0
 }
